@@ -237,6 +237,46 @@ def gen(ctx, cmds, n):
     return cases
 
 
+def after_write(ctx, count):
+    """the mapping a conversion computes for a field is the same before and after that field was written to a file together with other fields
+    (whose missing cells differ): the statistics a conversion takes from the field (minimum, maximum, mean, deviation) are the field's own"""
+    import os
+    from . import c18
+    from mpilot.libraries.eems.netcdf.io import EEMSWrite as NcWrite
+    rng = ctx.rng
+    tmp = common.tmpdir("mpv_c08_")
+    for i in range(count):
+        shape = rng.choice(c18.SHAPES)
+        n = int(numpy.prod(shape))
+        if n < 3:
+            continue
+        fields = [eems.rand_array(rng, shape, float, None, rng.choice(["one", "some", "some"])) for _ in range(rng.randrange(2, 4))]
+        fields = [numpy.ma.array(numpy.ma.getdata(a), mask=numpy.ma.getmaskarray(a)) for a in fields]      # full-size mask arrays, as readers deliver
+        cmd = rng.choice(["CvtToFuzzy", "Normalize", "CvtToFuzzyZScore", "NormalizeZScore", "CvtToFuzzyMeanToMid"])
+        first = fields[0]
+        case0 = Case(cmd, eems.gen_params(rng, cmd, [first], "valid"), [first.copy()])
+        if eems.near_discontinuity(case0):
+            continue
+        before = eems.run_impl(case0)
+        tpl = os.path.join(tmp, "tpl%d.nc" % (i % 4))
+        c18.make_template(tpl, shape, rng)
+        outp = os.path.join(tmp, "out%d.nc" % (i % 4))
+        if os.path.exists(outp):
+            os.remove(outp)
+        try:
+            NcWrite("W", []).execute(OutFileName=outp, OutFieldNames=[eems.Producer(a, "f%d" % j, False) for j, a in enumerate(fields)],
+                                     DimensionFileName=tpl, DimensionFieldName="elev")
+        except Exception as e:
+            ctx.count("after_write_errors:" + type(e).__name__)
+        after = eems.run_impl(Case(cmd, case0.params, [first]), copy_inputs=False)
+        ctx.case("after-write %s %r" % (cmd, [a.tolist() for a in fields]), sample=None)
+        ctx.count("c08_after_write_cases")
+        d = eems._same(before, after)
+        if d:
+            ctx.fail("%s of a field differs after the field was written to a NetCDF file with %d other field(s): %s" % (cmd, len(fields) - 1, d),
+                     {"cmd": cmd, "params": {k: repr(v) for k, v in case0.params.items()}, "fields": [repr(a.tolist()) for a in fields]})
+
+
 def run(ctx):
     ctx.check_proofs(["MPilot.Props.C08"])
     model = common.Model()
@@ -244,6 +284,7 @@ def run(ctx):
     n = ctx.budget(24, 900)
     eems.run_stream(ctx, model, gen(ctx, eems.CONVERSIONS, n), "exec:conversions", on_result=orc)
     relational(ctx, ctx.budget(40, 1200))
+    after_write(ctx, ctx.budget(30, 800))
     numeric.focus_search(ctx, model, lambda cmds, f: gen(ctx, [c for c in cmds if c in eems.CONVERSIONS], n * f), orc)
     return ctx.finish(
         rule="cases = (conversion/normalisation command, parameters: thresholds in both orders and equal, directions, category tables, "
